@@ -384,7 +384,21 @@ func (u *Unit) store(st *State, p *Ptr, v Val) {
 		return
 	}
 	base := u.loadBase(st, p).(*Term)
-	u.storeBase(st, p, u.updatePath(base, p.base, p.path, v.(*Term)))
+	vt, ok := v.(*Term)
+	if !ok {
+		if _, isFn := v.(*FuncVal); isFn || v == nil {
+			// a closure (or nil function) stored into a struct field: an opaque function value
+			vt = u.m.tb.Fresh("funcvalue_stored", SInt)
+			if isFn {
+				u.assume(u.m.tb.True(), u.m.tb.Lt(u.m.tb.Int(0), vt))
+			} else {
+				u.assume(u.m.tb.True(), u.m.tb.Eq(vt, u.m.tb.Int(0)))
+			}
+		} else {
+			panic(u.errf("store of %T into a struct field", v))
+		}
+	}
+	u.storeBase(st, p, u.updatePath(base, p.base, p.path, vt))
 }
 
 func (u *Unit) updatePath(base *Term, t types.Type, path []pathElem, v *Term) *Term {
@@ -536,6 +550,9 @@ func (u *Unit) mergeVals(vals []Val, gs []*Term) (Val, bool) {
 		accp := (*Ptr)(nil)
 		for i := len(vals) - 1; i >= 0; i-- {
 			p, ok := vals[i].(*Ptr)
+			if !ok && vals[i] == nil {
+				p, ok = &Ptr{kind: pNil, base: p0.typ, typ: p0.typ}, true // zero value of a pointer-to-scalar local
+			}
 			if !ok {
 				// the nil pointer constant
 				if t, isTerm := vals[i].(*Term); isTerm {
@@ -554,6 +571,23 @@ func (u *Unit) mergeVals(vals []Val, gs []*Term) (Val, bool) {
 			}
 		}
 		return accp, true
+	}
+	// function values that differ (a closure on one path, a loaded function value on
+	// another): the merged value is an unknown function value - calls through it are
+	// calls through a function value (everything havocked)
+	for _, v := range vals {
+		if _, isFn := v.(*FuncVal); isFn {
+			for _, w := range vals {
+				switch w.(type) {
+				case *FuncVal, *Term, nil:
+				default:
+					return nil, false
+				}
+			}
+			f := tb.Fresh("funcvalue_merged", SInt)
+			u.assume(tb.True(), tb.Le(tb.Int(0), f))
+			return f, true
+		}
 	}
 	var acc *Term
 	for i := len(vals) - 1; i >= 0; i-- {
